@@ -319,6 +319,8 @@ def generate():
     h = vlib.build_harness("c02")
     insts, rows, consts = gen_a64.dump_tables(h)
     enc = gen_a64.encoding_ids(vlib.REPO)
+    consts = dict(consts)
+    consts.update(gen_a64.source_features(vlib.REPO))
     vlib.gen_write("AsmjitVerif/Gen/A64Tables.lean", gen_a64.render_tables(insts, rows, consts, enc))
     return forms, applied, insts, rows, enc, h
 
